@@ -35,7 +35,8 @@ REQUIRED = ["contract:Assertion.set_p_values", "contract:Audit.summarize_status"
             "reset_from_a_state_with_p_values_but_empty_histories",
             "status_asked_with_a_limit_within_one_ulp_of_the_measured_risk", "sampled_cards_with_the_contest_outside_its_own_sample_seen",
             "status_asked_after_p_values_changed_without_a_new_evaluation",
-            "sample_handed_over_in_another_order_than_sample_number_order"]
+            "sample_handed_over_in_another_order_than_sample_number_order",
+            "assertion_set_changed_between_two_evaluations"]
 ASSUMPTIONS = ["samples have at least one observation per assertion", "summarize_status prints: stdout is swallowed, not parsed"]
 N_CASES = {"quick": 9600, "thorough": 80000}
 
@@ -323,6 +324,16 @@ def run_case(es, rec):
             # the same cards re-read with different manual records (same length, different data), no reset in between
             if rng.random() < 0.5:
                 CVR = sim.L["CVR"]
+                big = [con_ for con_ in sim.contests.values() if len(con_.assertions) >= 2]
+                if big and rng.random() < 0.4:
+                    # one assertion of a contest is dropped between the two evaluations (found redundant, or replaced
+                    # under another name): the contest's risk is the largest p-value among the assertions it has NOW
+                    con_ = rng.choice(big)
+                    worst = max(con_.assertions, key=lambda n_: (con_.assertions[n_].p_value, n_))
+                    gone = con_.assertions.pop(worst)
+                    if rng.random() < 0.5:
+                        con_.assertions[f"{worst} (renamed)"] = gone
+                    rec.count("assertion_set_changed_between_two_evaluations")
                 m2 = [CVR(id=x.id, votes={}, phantom=True) if rng.random() < 0.7 else x for x in m]
                 rec.count("second_call_same_length_different_data")
                 ok, _ = rec.guard("c09.call:set_p_values", A.set_p_values, sim.contests, m2, c)
